@@ -2,7 +2,7 @@ REST = {"dir": "api/rest", "pkgname": "rest"}
 
 SPEC = {
     "go": [dict(REST, files=["api_rest/c11_rig_test.go", "api_rest/c11_test.go"], test="TestVerifC11",
-                n_quick=1500, n_thorough=48000, shards_quick=8, shards_thorough=16)],
+                n_quick=1500, n_thorough=48000, shards_quick=8, shards_thorough=48)],
     "gen": ["RestRoutes", "RestClient", "C08Status"],
     "force": ["Model/C11_Rest.v", "Model/C11_Check.v", "Model/C11_Tables.v", "Proofs/C11_Rest.v", "Proofs/C11_Client.v", "Proofs/C11_ClientC08.v"],
     "diag": True,
